@@ -376,6 +376,24 @@ Lemma filter_call_T_unfold (c : configR) (s0 : stateR) (q sq : list R) :
     filter_variant (c_fn c) rS (fst (T c s0)) (snd (T c s0)) q sq (c_cutoff c) None None (filter_kw c).
 Proof. intros E. unfold filter_call. rewrite E. reflexivity. Qed.
 
+(* apply_lorch passes fewer keywords than lorch_kw holds ({lorch, rho} for g(r), {lorch} for G(r));
+   the methods called do not read the others, so the model's record is harmless: *)
+Lemma lorch_unread_keys (c : configR) (q sq r : list R) (k : kw R) :
+  lorch k = true -> omitted k = false ->
+  S_to_G q sq r None k = S_to_G q sq r None (lorch_kw c) /\
+  (rho k = c_rho c -> S_to_g q sq r None k = S_to_g q sq r None (lorch_kw c)) /\
+  (rho k = c_rho c -> bcoh k = c_bcoh c -> S_to_GK q sq r None k = S_to_GK q sq r None (lorch_kw c)).
+Proof. intros Hl Ho.
+  assert (EG : forall f d, F_to_G q f r d k = F_to_G q f r d (lorch_kw c)).
+  { intros f d. unfold F_to_G, fourier_transform. rewrite Hl, Ho. reflexivity. }
+  split; [|split].
+  - unfold S_to_G, S_to_F. apply EG.
+  - intros Hr. unfold S_to_g, S_to_F, F_to_g. rewrite EG.
+    destruct (F_to_G q _ r _ (lorch_kw c)) as [[r' g] dg]. unfold G_to_g. rewrite Hr. reflexivity.
+  - intros Hr Hb. unfold S_to_GK, S_to_F, F_to_GK. rewrite EG.
+    destruct (F_to_G q _ r _ (lorch_kw c)) as [[r' g] dg]. unfold G_to_GK. rewrite Hr, Hb. reflexivity.
+Qed.
+
 (* ---------- concrete instances (the hypotheses are satisfiable, the conclusions not trivial) ---------- *)
 Definition wf_config : configR :=
   {| c_qmin := None; c_qmax := None; c_rho := 1; c_bcoh := 1; c_btot := 1; c_dr := [1; 2];
